@@ -16,8 +16,10 @@ def ideal_completion(ops, out):
 
 
 def streams(seed, tier):
-    return _hc.build_streams(["ideal"], seed, tier, 2.0)
+    return _hc.build_streams(["ideal", "ideallat"], seed, tier, 2.0) + [_hc.codec_roundtrip_stream(seed, tier)]
 
 
 def oracle(name, ops, out):
-    return _hc.run_oracles({"*": [crash_oracle], "ideal": [global_order_oracle, ideal_completion]}, name, ops, out)
+    if _hc.stream_of(name) == "rt":
+        return _hc.codec_oracle(name, ops, out)
+    return _hc.run_oracles({"*": [crash_oracle], "ideal": [global_order_oracle, ideal_completion], "ideallat": [global_order_oracle, ideal_completion]}, name, ops, out)
